@@ -3,6 +3,8 @@ import Firebolt.Generated.Skeleton
 import Firebolt.Expected.Skeleton
 import Firebolt.Generated.Source
 import Firebolt.Expected.Source
+import Firebolt.Generated.Closure
+import Firebolt.Expected.Closure
 /-!
 # C17 — Shutdown is bounded by the configured timeout even if nodes never finish
 
@@ -86,5 +88,12 @@ theorem source_exAckMessageFn : GeneratedSrc.exAckMessageFn = ExpectedSrc.exAckM
 theorem source_kpStop : GeneratedSrc.kpStop = ExpectedSrc.kpStop := by rfl
 theorem source_kpShutdown : GeneratedSrc.kpShutdown = ExpectedSrc.kpShutdown := by rfl
 theorem source_msShutdown : GeneratedSrc.msShutdown = ExpectedSrc.msShutdown := by rfl
+
+/-! ### the timeout a configuration file asks for is the one the executor gets (defaulted only when absent or non-positive) -/
+theorem source_cfgRead : GeneratedSrc.cfgRead = ExpectedSrc.cfgRead := by rfl
+
+/-! ### influence closure: the pinned functions, and every function of the repository that writes a struct field or package
+variable they read, are unchanged (digests regenerated from /repo on every run; a difference names the functions) -/
+theorem closure_unchanged : GeneratedClo.C17 = ExpectedClo.C17 := by rfl
 
 end Firebolt.C17
